@@ -29,6 +29,6 @@ import json
 s=json.load(open('/var/tmp/vdev/out/worker-0.json'))
 print('runs',s['runs'],'nontrivial',s['nontrivial'],'wall',round(s['wall_s'],2),'fired',s['faults_fired'],'probes',s['probes'])
 print('fail_count',s['fail_count'])
-for f in s['failures'][:${SHOW:-3}]:
+for f in (s['failures'] or [])[:${SHOW:-3}]:
     print('---',f['fail']['class'],'run',f['run']); print(f['fail']['detail'][:3000]); print('\n'.join(f.get('trace',[])[-12:]))
 EOP
